@@ -15,6 +15,7 @@ import LdkModel.Proofs.OnchainClaims
 import LdkModel.Proofs.ClaimTime
 import LdkModel.Proofs.Packages
 import LdkModel.Proofs.Sweeper
+import LdkModel.Proofs.SweeperConfirm
 namespace Ldk.C07
 open Ldk Ldk.Pkg Ldk.Onchain
 
@@ -430,6 +431,40 @@ theorem descriptor_matches_script (hs cs : Nat) :
 
 example : delayedDescriptorToSelfDelay (monDelaysOfChannel 720 432) = 432 ∧
     monitorHolderScriptCsv (monDelaysOfChannel 720 432) = 432 ∧ (monDelaysOfChannel 720 432).on_counterparty_tx_csv = 720 := by decide
+
+/-- **htlc_direction_sites_agree** — whose HTLC an output is ("outbound" = the node offered it) is derived at four places from the
+    `$holder_tx` / `holder_commitment` flag of the commitment and `htlc.offered`: should_broadcast_holder_commitment_txn (translated by
+    gen_timing.py `scanHtlcOutbound`), is_resolving_htlc_output twice (`resolvingHtlcOutbound`, the two copies must be textually the same
+    operator) and get_htlc_balance (`balanceHtlcOutbound`). For all flag values the four agree, and an HTLC is outbound exactly when it is
+    offered on the holder's commitment or received on the counterparty's; the holder-commitment scans of is_resolving_htlc_output (latest AND
+    previous holder commitment) run with `holder_tx = true`, the counterparty scan with `false`. -/
+theorem htlc_direction_sites_agree (holder_tx offered : Bool) :
+    resolvingHtlcOutbound holder_tx offered = scanHtlcOutbound holder_tx offered ∧
+    balanceHtlcOutbound holder_tx offered = scanHtlcOutbound holder_tx offered ∧
+    (resolvingHtlcOutbound holder_tx offered = true ↔ holder_tx = offered) ∧
+    resolvingScanHolderTx = [true, true, false] := by
+  cases holder_tx <;> cases offered <;> decide
+
+example : resolvingHtlcOutbound true false = false ∧ resolvingHtlcOutbound false false = true := by decide
+
+/-- **htlc_success_spend_waits_for_csv** — for ALL pairs of delays: when the node's HTLC-success transaction (accepted_preimage_claim) for
+    an INBOUND HTLC of its own commitment confirms (latest or previous holder commitment: `holder_tx = true`, the HTLC is not offered), the
+    HTLCSpendConfirmation carries the CSV that is really in the HTLC transaction's output script (the counterparty's choice), so the
+    balance stays reported until the output is spendable; a counterparty's preimage claim of the node's OUTBOUND HTLC (on either side's
+    commitment) and every timeout claim carry none; and the entry records the preimage exactly for the two preimage claim types.
+    `itemCsv` of the ledger (Model/CloseCfg.lean) is this composition. -/
+theorem htlc_success_spend_waits_for_csv (hs cs : Nat) :
+    let m := monDelaysOfChannel hs cs
+    htlcSpendToLocalCsv m true (resolvingHtlcOutbound true false) = some (builtHtlcTxOutputScriptCsv (contestDelay true hs cs)) ∧
+    htlcSpendToLocalCsv m true (resolvingHtlcOutbound false false) = none ∧
+    (∀ outbound, htlcSpendToLocalCsv m false outbound = none) ∧
+    (∀ c : CloseCfg, itemCsv c .inboundHtlcPreimage = if c.holderClose then some c.delays.on_holder_tx_csv else none) ∧
+    (∀ a o, htlcSpendRecordsPreimage a o = (a || o)) := by
+  refine ⟨rfl, rfl, fun o => by cases o <;> rfl, ?_, fun a o => rfl⟩
+  intro c
+  cases hc : c.holderClose <;> simp [itemCsv, hc, htlcSpendToLocalCsv, resolvingHtlcOutbound]
+
+example : htlcSpendToLocalCsv (monDelaysOfChannel 720 432) true (resolvingHtlcOutbound true false) = some 432 := by decide
 
 /-- **descriptor_kind_table** — which kind of descriptor `get_spendable_outputs` produces for which of
     the node's scripts: only the holder's revokeable script yields a CSV-delayed descriptor, the
@@ -1026,6 +1061,59 @@ theorem sweeper_prunes_exactly_at_depth (s : State) (h : Nat) (o : Out) :
 
 example : (bestBlockUpdated { best := 0, outputs := [⟨1, .threshold 100 1 101⟩], nextTx := 2 } 4137).outputs = [⟨1, .threshold 100 1 101⟩] ∧
     (bestBlockUpdated { best := 0, outputs := [⟨1, .threshold 100 1 101⟩], nextTx := 2 } 4138).outputs = [] := by decide
+
+/-- **sweeper_view_matches_chain_confirm_partial** — the Confirm style: for EVERY history of track / sweep /
+    transactions_confirmed(h, txs) / best_block_updated(h) (any heights, either order, also a LOWER best height, the same block
+    reported twice) / transaction_unconfirmed(txid) that respects `CWFHist` (a tracked output is unspent when handed over; no outpoint
+    is spent at two heights of the chain), a tracked output is held as confirmed EXACTLY when the chain the calls describe contains a
+    spend of it, and its confirmation height is the height of such a block.
+    PARTIAL — what is missing: the chain semantics of `transaction_unconfirmed(txid)` is stated through the sweeper's own record:
+    "every block at or above the height at which the sweeper holds `txid` confirmed (first output whose latest_spending_tx is txid) is
+    gone, an unknown or unconfirmed txid removes nothing". That this recorded height IS the height of the block holding `txid` (txids
+    determine inputs and occur at one height; get_relevant_txids hands the client exactly these ids) is not derived: `latestTx` is an
+    opaque id in Model/Sweeper.lean. The c07sweep oracle checks the view against the harness's true chain after every Confirm-style reorg. -/
+theorem sweeper_view_matches_chain_confirm_partial (best : Nat) (ops : List COp) (hw : CWFHist (LState.fresh best) ops) :
+    let l := (LState.fresh best).crun ops
+    ∀ o ∈ l.sw.outputs,
+      o.status.isConfirmed = spentOnChain l.chain o.id ∧
+      ∀ lb t h, o.status = .threshold lb t h → ∃ b ∈ l.chain, b.1 = h ∧ blockSpends b o.id = true := by
+  intro l o ho
+  have hi : CInv l := cinv_run ops _ (cinv_fresh best) hw
+  refine ⟨?_, hi.confAt o ho⟩
+  cases hc : o.status.isConfirmed
+  · cases hs : spentOnChain l.chain o.id
+    · rfl
+    · rw [hi.spentConf o ho hs] at hc; cases hc
+  · obtain ⟨lb, t, h, hst⟩ := (isConfirmed_iff _).1 hc
+    obtain ⟨b, hb, _, hsp⟩ := hi.confAt o ho lb t h hst
+    exact (spentOnChain_iff.2 ⟨b, hb, hsp⟩).symm
+
+-- non-vacuity: best before conf and conf before best; tx 2 (height 103) is un-confirmed: output 2 goes back, output 1 (height 101) stays
+example : CWFHist (LState.fresh 100) [.track 1 none, .sweep, .best 101, .conf 101 [⟨1, [1]⟩], .track 2 none, .best 102, .sweep, .conf 103 [⟨2, [2]⟩], .best 103, .unconf 2, .best 102] ∧
+    ((LState.fresh 100).crun [.track 1 none, .sweep, .best 101, .conf 101 [⟨1, [1]⟩], .track 2 none, .best 102, .sweep, .conf 103 [⟨2, [2]⟩], .best 103, .unconf 2, .best 102]).sw.outputs
+      = [⟨1, .threshold 100 1 101⟩, ⟨2, .firstConf 102 2⟩] ∧
+    ((LState.fresh 100).crun [.track 1 none, .sweep, .best 101, .conf 101 [⟨1, [1]⟩], .track 2 none, .best 102, .sweep, .conf 103 [⟨2, [2]⟩], .best 103, .unconf 2, .best 102]).chain
+      = [(101, [⟨1, [1]⟩])] := by decide
+
+/-- **sweeper_never_respends_confirmed_spend_confirm_partial** — in every state reached by such a Confirm-style history the
+    transaction the sweeper builds spends no output whose spend is on the described chain. PARTIAL for the same reason as above. -/
+theorem sweeper_never_respends_confirmed_spend_confirm_partial (best : Nat) (ops : List COp) (hw : CWFHist (LState.fresh best) ops) :
+    let l := (LState.fresh best).crun ops
+    (∀ id ∈ sweepInputs l.sw, spentOnChain l.chain id = false) ∧
+    (∀ tx, (sweep l.sw).2 = some tx → ∀ id ∈ tx.inputs, spentOnChain l.chain id = false) := by
+  intro l
+  have hi : CInv l := cinv_run ops _ (cinv_fresh best) hw
+  have h1 : ∀ id ∈ sweepInputs l.sw, spentOnChain l.chain id = false := by
+    intro id hid
+    obtain ⟨o, ho, rfl, hr⟩ := mem_sweepInputs hid
+    cases hs : spentOnChain l.chain o.id
+    · rfl
+    · have := hi.spentConf o ho hs
+      rw [respend_not_confirmed hr] at this; cases this
+  exact ⟨h1, fun tx htx id hid => h1 id (sweep_tx_inputs htx ▸ hid)⟩
+
+example : (sweep ((LState.fresh 100).crun [.track 1 none, .sweep, .best 101, .conf 101 [⟨1, [1]⟩], .track 2 none, .best 102, .sweep, .conf 103 [⟨2, [2]⟩], .best 103, .unconf 2, .best 103]).sw).2
+    = some ⟨3, [2]⟩ := by decide
 
 end Sweeper
 
